@@ -148,13 +148,15 @@ class Device(object):
                 self.issue('maxdata', 'host WRTE payload of %d bytes exceeds the device maxdata %d' % (len(pkt.data), limit))
             order = self.cfg.get('okay_order')
             late = order == 'late' or (order == 'choice' and self.env.ch.choose('okay-order', 2, (0, 1)) == 1)
+            od = self.cfg.get('okay_delay')     # a slow device: the acknowledgement of the nth host WRTE of a stream is late
+            odelay = od['delay'] if od and od['nth'] == s.host_wrtes else 0.0
             if not late:
-                self.enqueue(s.q, Packet(b'OKAY', s.remote, s.local))    # adbd: send_ready() before the service sees the data
+                self.enqueue(s.q, Packet(b'OKAY', s.remote, s.local), odelay)    # adbd: send_ready() before the service sees the data
             if s.sync is not None:
                 s.sync.feed(pkt.data)
             if late:
                 # protocol.txt does not order a side's READY against its own WRITEs: the reply may overtake the acknowledgement
-                self.enqueue(s.q, Packet(b'OKAY', s.remote, s.local))
+                self.enqueue(s.q, Packet(b'OKAY', s.remote, s.local), odelay)
         elif c == b'CLSE':
             s = self.find(pkt)
             if s is None:
@@ -248,11 +250,12 @@ class Device(object):
             payload = s.out.popleft()
             s.wrote.append(payload)
             s.awaiting_ack = True
-            self.enqueue(s.q, Packet(b'WRTE', s.remote, s.local, payload))
+            # wrte_delay: a slow (but legal) device -- every WRTE reaches the wire that many seconds after the device produced it
+            self.enqueue(s.q, Packet(b'WRTE', s.remote, s.local, payload), self.cfg.get('wrte_delay') or 0.0)
         if s.finished and not s.out and (s.eager or not s.awaiting_ack):
             s.dev_closed = True
             z = self.cfg.get('zero_clse')       # legacy devices close with zeroed ids
-            self.enqueue(s.q, Packet(b'CLSE', 0 if z in ('a0', 'both') else s.remote, 0 if z in ('a1', 'both') else s.local))
+            self.enqueue(s.q, Packet(b'CLSE', 0 if z in ('a0', 'both') else s.remote, 0 if z in ('a1', 'both') else s.local), self.cfg.get('clse_delay') or 0.0)
             # adbd forgets the socket at once; the peer's answering CLSE then finds nothing.  The model keeps
             # the entry so that the monitor can tell the answer from a stray packet.
 
@@ -514,6 +517,11 @@ class SyncSession(object):
                 self.dev.issue('sync', 'SEND argument %r is not <path>,<decimal mode>' % (arg[:60],))
             self.send = {'path': path, 'mode': mode_i, 'data': bytearray(), 'ndata': 0, 'mtime': None, 'chunks': [], 'arg': arg}
             self.state = 'send'
+            ro = cfg.get('ro_prefix')          # a read-only part of the device filesystem: SEND there is rejected at once
+            if ro and path.startswith(ro):
+                self.fail_pending = [b'Permission denied', 0]
+                self.emit_fail()
+                return True
             f = cfg.get('fail')
             if f and f.get('op') == 'send' and f.get('when') == 'header':
                 self.fail_pending = [f.get('reason', b'fail'), f.get('delay', 0)]
